@@ -805,8 +805,33 @@ func TestVerifC26Table(t *testing.T) {
 		{{Plug: 0, Slot: 2, Listed: true, Undesired: true}},
 		{{Plug: 0, Slot: 2, Listed: false, Iface: 0}},
 	}
+	auths := []int{c26AuthNone, c26AuthValid, c26AuthForged}
+	polkits := []int{c26PkAuthorized, c26PkDenied, c26PkError}
+	grants := []int{c26GrantAll}
+	if verifkit.Thorough() {
+		addrs = append(addrs,
+			"pid=2147483647;uid=4294967294;socket={SNAPD};",
+			"pid=100;uid=00;socket={SNAP};",
+			"pid=2147483648;uid=0;socket={SNAPD};",
+			"pid=100;uid=4294967296;socket={SNAPD};",
+			"pid=100;uid=0;socket={SNAPD};x",
+			"x\npid=100;uid=0;socket={SNAPD};",
+			"pid=100;uid=0;uid=1000;socket={SNAPD};",
+			"pid=100;uid=1000;socket={SNAPD}x;",
+			"pid=100;uid=0;socket=;",
+			"uid=0;socket={SNAPD};",
+		)
+		connSets = append(connSets,
+			[]c26Conn{{Plug: 0, Slot: 2, Listed: true, HotplugGone: true}},
+			[]c26Conn{{Plug: 1, Slot: 2, Listed: true}},
+			[]c26Conn{{Plug: 0, Slot: 0, Listed: true}},
+			[]c26Conn{{Plug: 0, Slot: 2, Listed: true, Undesired: true}, {Plug: 0, Slot: 1, Listed: true, Iface: 1}, {Plug: 2, Slot: 0, Listed: false, Iface: 1}},
+		)
+		auths = []int{c26AuthNone, c26AuthValid, c26AuthRemoved, c26AuthForged, c26AuthBearer, c26AuthTruncated}
+		polkits = []int{c26PkAuthorized, c26PkDenied, c26PkDismissed, c26PkInteraction, c26PkError}
+		grants = []int{c26GrantAll, c26GrantOthers}
+	}
 	shard, shards := verifkit.EnvInt("VERIF_SHARD", 0), verifkit.EnvInt("VERIF_SHARDS", 1)
-	var n int64
 	var keys []string
 	for i, em := range tab {
 		keys = append(keys, fmt.Sprintf("%s [%s]", em.Key, c26ClassOf(em)))
@@ -814,18 +839,19 @@ func TestVerifC26Table(t *testing.T) {
 			continue
 		}
 		for _, addr := range addrs {
-			for _, au := range []int{c26AuthNone, c26AuthValid, c26AuthForged} {
-				for _, pk := range []int{c26PkAuthorized, c26PkDenied, c26PkError} {
+			for _, au := range auths {
+				for _, pk := range polkits {
 					for _, cs := range connSets {
 						for _, deg := range []bool{false, true} {
-							c := c26Case{Key: em.Key, RemoteAddr: addr, Auth: au, Polkit: pk, Grant: c26GrantAll, PidSnap: 0, Conns: cs, Degraded: deg}
-							o, err := c26SafeExec(c)
-							if err != nil {
-								e.Fail(c, "%v", err)
+							for _, gr := range grants {
+								c := c26Case{Key: em.Key, RemoteAddr: addr, Auth: au, Polkit: pk, Grant: gr, PidSnap: 0, Conns: cs, Degraded: deg}
+								o, err := c26SafeExec(c)
+								if err != nil {
+									e.Fail(c, "%v", err)
+								}
+								key, _ := json.Marshal(c)
+								e.Case(string(key), o.NonTrivial, o.Labels...)
 							}
-							n++
-							key, _ := json.Marshal(c)
-							e.Case(string(key), o.NonTrivial, o.Labels...)
 						}
 					}
 				}
@@ -842,7 +868,7 @@ func TestVerifC26Table(t *testing.T) {
 	e.Extra("endpoint_methods", keys)
 	e.Extra("endpoint_methods_registered", real)
 	e.Extra("endpoint_methods_synthetic", len(tab)-real)
-	e.Extra("grid_per_endpoint_method", len(addrs)*3*3*len(connSets)*2)
+	e.Extra("grid_per_endpoint_method", len(addrs)*len(auths)*len(polkits)*len(connSets)*2*len(grants))
 }
 
 func c26SafeExec(c c26Case) (o verifkit.Outcome, err error) {
